@@ -1,5 +1,4 @@
 """C07 - TFTP option negotiation follows RFC 2347-2349; the transfer honours the OACK."""
-import io
 import itertools
 import re
 
@@ -107,34 +106,6 @@ def canon_oack(trace):
     return out
 
 
-class _BytesIOStream(io.BytesIO):
-    """BytesIO whose release by the server is visible (tftp_common wraps streams in a proxy object, which hides
-    the BytesIO type from the isinstance test of _process_transfer_size_option)"""
-    released = False
-
-    def __exit__(self, *a):
-        self.released = True
-        return super().__exit__(*a)
-
-
-def run_impl(c):
-    if c["kind"][0] != "bytesio":
-        return T.run_impl(c)
-    streams = []
-
-    def handler(filename, client, server, context):
-        f = _BytesIOStream(b"P" * c["kind"][1] + c["content"])
-        f.seek(c["kind"][1])
-        streams.append(f)
-        return f
-    tr = T.run_impl(c, handler=handler)
-    if streams and streams[0].released:
-        # the real code releases the file directly before the socket (nested with-blocks)
-        i = max((k for k, e in enumerate(tr) if e == [6]), default=len(tr))
-        tr = tr[:i] + [[5]] + tr[i:]
-    return tr
-
-
 class C07(C01):
     ident = "C07"
     technique = ("Coq proof: negotiate = declarative RFC 2347-2349 specification (blksize/timeout/tsize rules, "
@@ -168,12 +139,15 @@ class C07(C01):
 
     def gen(self, tier, rng):
         quick = tier == "quick"
+        # (0) witnesses of the repaired defects first (D2: blksize above the limit; D3: file offset, pipe)
+        for name in ("blksize", "BlkSize"):
+            yield self.finish(self.base([(name, "1400")], max_bs=1024), rng, "coop")
+        for kind in (("file", 4), ("pipe",), ("bytesio", 3)):
+            yield self.finish(self.base([("tsize", "0")], kind=kind), rng, "coop")
         # (a) blksize alone: value grid x max_block_size x letter case
         for max_bs in (8, 512, 1024, 65464):
             for v in blksize_grid(max_bs):
                 for name in styles("blksize"):
-                    if quick and name != "blksize" and rng.random() < 0.5:
-                        continue
                     c = self.base([(name, v)], max_bs=max_bs)
                     yield self.finish(c, rng, "coop")
                     if name == "blksize":
@@ -187,7 +161,7 @@ class C07(C01):
                     if v.isdigit() and int(v) > 40 and quick and dflt != 2:
                         continue
                     for name in styles("timeout"):
-                        if name != "timeout" and (quick and rng.random() < 0.6):
+                        if name != "timeout" and (quick and rng.random() < 0.3):
                             continue
                         c = self.base([(name, v)], max_tmo=max_tmo, default_tmo=dflt, retries=rng.choice([0, 1, 2]))
                         yield self.finish(c, rng, "silent")
@@ -207,9 +181,7 @@ class C07(C01):
             for sel in itertools.permutations(("blksize", "timeout", "tsize", "unknown"), k):
                 for st in range(3):
                     for combo in itertools.product(*[vals[s] for s in sel]):
-                        if quick and k >= 3 and rng.random() < 0.8:
-                            continue
-                        if not quick and k == 4 and rng.random() < 0.5:
+                        if quick and k >= 3 and rng.random() < 0.5:
                             continue
                         max_bs = rng.choice([8, 512, 1024, 65464])
                         max_tmo = rng.choice([1, 5, 30])
@@ -227,12 +199,10 @@ class C07(C01):
             bad = {"blksize": ["7", "08", ""], "timeout": ["0", "999"], "tsize": ["1", ""]}[nm]
             for (a, b) in itertools.product(good + bad, repeat=2):
                 for (n1, n2) in itertools.permutations(styles(nm), 2):
-                    if quick and rng.random() < 0.5:
-                        continue
                     c = self.base([(n1, a), (n2, b)], max_bs=rng.choice([512, 1024]), kind=("bytesio", 2))
                     yield self.finish(c, rng, "coop")
         # (f) random mixtures
-        for _ in range(1500 if quick else 25000):
+        for _ in range(6000 if quick else 60000):
             max_bs = rng.choice([8, 512, 1024, 1428, 65464])
             max_tmo = rng.choice([1, 2, 5, 30, 255])
             dflt = rng.choice([d for d in (1, 2, 5) if d <= max_tmo])
@@ -255,7 +225,7 @@ class C07(C01):
             yield self.finish(c, rng, rng.choice(["coop", "coop", "coop0", "silent", "skip0", "late", "lossy"]))
 
     def impl(self, c):
-        return canon_oack(run_impl(c))
+        return canon_oack(T.run_impl(c))
 
     def nontrivial(self, c, obs):
         if c["options"]:
